@@ -227,6 +227,7 @@ func (s *Scanner) Next() (lexeme.LexEvent, bool) {
 		// useful for debugging comment below 1 line for release
 		// fmt.Printf("Schema-Next->step %s %c\n", runtime.FuncForPC(reflect.ValueOf(s.step).Pointer()).Name(), c)
 
+		verifScanStep(s.step, c, int(s.index)-1, int(s.dataSize))
 		s.step(s, c)
 
 		if len(s.finds) != 0 {
